@@ -242,7 +242,7 @@ func TestWorker(t *testing.T) {
 				emit(map[string]any{"hang": seed, "stacks": string(buf[:n])})
 				os.Exit(3)
 			})
-			res := RunPlan(t, plan, newTape(seed), pd.chk, false)
+			res := runProp(t, pd, plan, newTape(seed), false)
 			wd.Stop()
 			rec := RunRecord{Seed: seed, Class: plan.Class, End: res.Stats.EndReason, Steps: res.Stats.Steps, TaskSteps: res.Stats.TaskSteps,
 				SimTimeNs: int64(res.Stats.SimTime), Cmds: res.Stats.Cmds, Replies: res.Stats.Replies,
@@ -283,7 +283,7 @@ func TestWorker(t *testing.T) {
 			}
 			os.Exit(0)
 		}
-		res := RunPlan(t, rf.Plan, replayTape(rf.Tape), pd.chk, true)
+		res := runProp(t, pd, rf.Plan, replayTape(rf.Tape), true)
 		report(res)
 		if os.Getenv("VS_VERBOSE") != "" {
 			for _, l := range res.Log {
@@ -321,7 +321,7 @@ func TestWorker(t *testing.T) {
 		best, runs := shrinkReplay(t, pd, rf, budget, run)
 		if !wedging {
 			// final run with the event log kept, for the human-readable trace
-			fin := RunPlan(t, best.Plan, replayTape(best.Tape), pd.chk, true)
+			fin := runProp(t, pd, best.Plan, replayTape(best.Tape), true)
 			if fin.Viol != nil {
 				best.Viol = fin.Viol
 				best.Tape = fin.Tape
